@@ -260,11 +260,16 @@ TGet(a) == /\ kind = "radio" /\ thr = "run" /\ tpc = "get" /\ cbc = "idle"
 \*   tpc = "tx"  : at the top of its loop (just started, or back from a read)
 \*   tpc = "ack" : inside a read (which times out after 20 ms, returns data, or fails)
 \* An unplugged device makes the read fail and the failure is reported (event lerr).
-TRead == /\ kind = "usb" /\ thr = "run" /\ cbc = "idle" /\ ~sp
-         /\ tpc = "tx" \/ (tpc = "ack" /\ dev # "gone")
+TRead == /\ kind = "usb" /\ thr = "run" /\ cbc = "idle" /\ ~sp /\ tpc = "tx"
          /\ tpc' = "ack"
          /\ UNCHANGED <<cfgv, upc, cbc, handle, fresh, thr, sp, cur, hs, outq, dev, jam, fault, owed,
                         req, sess, nreq, nops, nidle, lostrow, lasto, nerr, h, mon>>
+
+\* the read comes back (timeout or data): back to the top of the loop
+TRet == /\ kind = "usb" /\ thr = "run" /\ cbc = "idle" /\ tpc = "ack" /\ dev # "gone"
+        /\ tpc' = "tx"
+        /\ UNCHANGED <<cfgv, upc, cbc, handle, fresh, thr, sp, cur, hs, outq, dev, jam, fault, owed,
+                       req, sess, nreq, nops, nidle, lostrow, lasto, nerr, h, mon>>
 
 TErr == /\ kind = "usb" /\ thr = "run" /\ cbc = "idle" /\ tpc = "ack" /\ dev = "gone" /\ nerr < MaxErr
         /\ Log("lerr", 0)
@@ -296,7 +301,7 @@ Next == \/ ConnB \/ ConnW \/ ConnE
         \/ Unplug \/ Jam
         \/ (\E o \in {"A", "L"} : TWr(o)) \/ TWx \/ TAck
         \/ (\E a \in 0..MaxReq : TGet(a))
-        \/ TRead \/ TErr \/ CbCloseB \/ CbCloseE
+        \/ TRead \/ TRet \/ TErr \/ CbCloseB \/ CbCloseE
 
 Spec == Init /\ [][Next]_vars
 
